@@ -43,13 +43,15 @@ struct Monitor {
 
 std::map<std::string, uint64_t> g_extra;
 
+struct SectionAbort {};   // thrown out of a guarded critical section: the guard's destructor must release the lock during unwinding
+
 struct Inner {   // optional nested critical section on a SECOND resource, taken while the outer lock is held (fixed order A -> B)
     Resource* res;
     Monitor* mon;
     bool w, guard;
     int yields;
 };
-void section(Resource& res, Monitor& mon, int rid, bool w, bool guard, int yields, sim::Barrier* bar, const Inner* inner = nullptr, int residx = 0) {
+void section(Resource& res, Monitor& mon, int rid, bool w, bool guard, int yields, sim::Barrier* bar, const Inner* inner = nullptr, int residx = 0, bool throws = false) {
     sim::set_tag(rid);
     sim::ev(E_ISSUE, rid, (int)w | (residx << 1));
     auto inside = [&] {
@@ -66,10 +68,14 @@ void section(Resource& res, Monitor& mon, int rid, bool w, bool guard, int yield
         }
         mon.leave(w);
         sim::ev(E_REL_CALL, rid, w);
+        if (throws && guard) throw SectionAbort{};
     };
     if (guard) {
-        if (w) { WriteLock l{res}; inside(); }
-        else { ReadLock l{res}; inside(); }
+        try {
+            if (w) { WriteLock l{res}; inside(); }
+            else { ReadLock l{res}; inside(); }
+        } catch (const SectionAbort&) {
+        }
     } else {
         if (w) { res.lockWrite(); inside(); res.unlockWrite(); }
         else { res.lockRead(); inside(); res.unlockRead(); }
@@ -182,7 +188,7 @@ void run_random(const Json& prog) {
                 if (sc.get("onB", 0))   // a section on the second resource alone
                     section(*resB, monB, (int)(t + 1) * 100 + (int)s + 1, sc.get("w", 0) != 0, sc.get("g", 0) != 0, (int)sc.get("y", 0), nullptr, nullptr, 1);
                 else
-                    section(*res, mon, (int)(t + 1) * 100 + (int)s + 1, sc.get("w", 0) != 0, sc.get("g", 0) != 0, (int)sc.get("y", 0), nullptr, has_inner ? &in : nullptr, 0);
+                    section(*res, mon, (int)(t + 1) * 100 + (int)s + 1, sc.get("w", 0) != 0, sc.get("g", 0) != 0, (int)sc.get("y", 0), nullptr, has_inner ? &in : nullptr, 0, sc.get("x", 0) != 0);
             }
         });
     }
@@ -305,6 +311,7 @@ void generate(sim::Rng& g, const std::string& prop, const std::string& tier, Jso
             for (int s = 0; s < ns; s++) {
                 Json sc = Json::object();
                 sc.set("w", (int)g.chance(pw)).set("g", (int)g.below(2)).set("y", g.range(0, 2)).set("pre", g.range(0, 2));
+                if (sc.get("g", 0) && g.below(6) == 0) sc.set("x", 1);   // leave the guarded section by an exception
                 if (two) {
                     int r = (int)g.below(10);
                     if (r < 4) sc.set("inner", 1).set("iw", (int)g.chance(pw)).set("ig", (int)g.below(2)).set("iy", g.range(0, 1));
@@ -355,6 +362,7 @@ std::string describe(const Json& p) {
             s += sc.get("w", 0) ? 'W' : 'R';
             if (sc.get("g", 0)) s += 'g';
             if (sc.get("y", 0)) s += "y" + std::to_string(sc.get("y", 0));
+            if (sc.get("x", 0)) s += "!";
             if (sc.get("onB", 0)) s += "@B";
             if (sc.get("inner", 0)) s += std::string("{B:") + (sc.get("iw", 0) ? "W" : "R") + (sc.get("ig", 0) ? "g" : "") + "}";
         }
@@ -389,6 +397,7 @@ std::vector<Json> shrink(const Json& p) {
         for (size_t s = 0; s < th[t].size(); s++) {
             const Json& sc = th[t][s];
             auto with = [&](const char* k, int v) { Json c = p; c.at("threads")[t][s].set(k, v); out.push_back(c); };
+            if (sc.get("x", 0)) with("x", 0);
             if (sc.get("inner", 0)) with("inner", 0);
             if (sc.get("onB", 0)) with("onB", 0);
             if (sc.get("iw", 0) && sc.get("inner", 0)) with("iw", 0);
